@@ -28,7 +28,7 @@ def _mine(ex) -> bool:
 
 
 # ---- tuple of known arity + sequence ------------------------------------------------------------------
-_orig_binop = SE.Executor.binop
+_orig_binop = None
 
 
 def _binop(self, st, op, l, r, node):
@@ -60,11 +60,10 @@ def _concat(ex, st, l, r):
     return st.new_list_sym(n, arr, ety)
 
 
-SE.Executor.binop = _binop
 
 
 # ---- len(set(seq)): pigeonhole --------------------------------------------------------------------------
-_orig_set_of = lib.set_of
+_orig_set_of = None
 
 
 def _set_of(ex, st, v):
@@ -92,13 +91,10 @@ def _set_of(ex, st, v):
     return out
 
 
-lib.set_of = _set_of
-# the builtin table holds a direct reference to the original `_b_set`, which calls lib.set_of through the module
-# global -- so the patched function is picked up; nothing else to re-register.
 
 
 # ---- list == list -----------------------------------------------------------------------------------------
-_orig_py_eq = SE.Executor.py_eq
+_orig_py_eq = None
 
 
 def _py_eq(self, st, l, r):
@@ -112,4 +108,241 @@ def _py_eq(self, st, l, r):
     return _orig_py_eq(self, st, l, r)
 
 
-SE.Executor.py_eq = _py_eq
+
+
+# ---- type(x) inside an error message --------------------------------------------------------------------
+_orig_type = None
+
+
+def _b_type(ex, st, args, kw, node):
+    try:
+        return _orig_type(ex, st, args, kw, node)
+    except lib.Unsupported:
+        if not _mine(ex):
+            raise
+        ex.ctx.note('ENGINE (c16c) type(x) of a value of unknown class: opaque object (only formatted into a message)')
+        return VV.v_py(('c16c_type_of', id(node)))
+
+
+
+
+# ---- (int, float, bool): a tuple display of classes (second argument of isinstance) -----------------------
+_orig_e_tuple = None
+
+
+def _e_Tuple(self, st, node):
+    if _mine(self) and node.elts and not any(isinstance(e, ast.Starred) for e in node.elts):
+        items = [self.ev(st, e) for e in node.elts]
+        if all(i.kind == 'py' for i in items):
+            # only `isinstance(x, (A, B))` consumes it (through .items); the term itself is a placeholder
+            return V(Val.nil, VV.TTuple(*[i.ty for i in items]), items=items)
+        return VV.v_tuple(items) if all(i.t is not None for i in items) else _orig_e_tuple(self, st, node)
+    return _orig_e_tuple(self, st, node)
+
+
+
+
+# ---- NamedTuple objects built inside a comprehension of symbolic length ----------------------------------------
+# ENGINE (core): `[NT(a=f(x), b=g(x)) for x in xs]` with len(xs) symbolic evaluates the element ONCE under the
+# binder j; State.new_ref then yields ONE reference for every j and the stores hold terms with j free -- every
+# element would be the same object.  Here: one fresh reference ntref(j) per position (ntref injective, all at or
+# beyond the current allocation pointer), the fields are axiomatised pointwise (field'[ntref(j)] == value(j); every
+# object that existed before keeps its value) and the allocation pointer moves past all of them.  Only for NamedTuple classes (immutable records whose
+# constructor stores its arguments), only under exactly one binder `0 <= j < n`, only while C16 is verified.
+def _alt_triggers(body, j, limit=3) -> list:
+    """Sub-terms f(.., j, ..) / a[j] of `body` whose other arguments do not mention j: alternative E-matching triggers,
+    so that a pointwise axiom  forall j. new[j] == body(j)  also fires from the SOURCE side (a ground a[q] instantiates
+    it and thereby creates new[q])."""
+    from pyvc.state import occurs
+    out, seen, todo = [], set(), [body]
+    while todo:
+        t = todo.pop()
+        if t.get_id() in seen or not z3.is_app(t):
+            continue
+        seen.add(t.get_id())
+        kids = t.children()
+        k = t.decl().kind()
+        if kids and any(c.eq(j) for c in kids) and k in (z3.Z3_OP_SELECT, z3.Z3_OP_UNINTERPRETED) \
+                and not any(occurs(j, c) for c in kids if not c.eq(j)):
+            if not any(t.eq(o) for o in out):
+                out.append(t)
+        todo.extend(kids)
+    return out[:limit]
+
+
+def _is_namedtuple(ci) -> bool:
+    return ci is not None and any('NamedTuple' in b for b in ci.bases)
+
+
+def _nt_fields(ex, ci) -> list:
+    names = []
+    for c in reversed(ex.repo.mro(ci)):
+        for nme in c.field_types:
+            if nme not in names:
+                names.append(nme)
+    return names
+
+
+def _binder_range(guard):
+    """(j >= 0 and j < n) -> n; None when the guard has another shape."""
+    if z3.is_and(guard) and guard.num_args() == 2:
+        lo, hi = guard.arg(0), guard.arg(1)
+        if z3.is_app(hi) and hi.decl().kind() == z3.Z3_OP_LT:
+            return hi.arg(1)
+    return None
+
+
+def _construct_namedtuple_block(ex, st, ci, args, kwargs, node):
+    if not _mine(ex) or not st.bound or not _is_namedtuple(ci):
+        return None
+    if len(st.bound) != 1 or st.guards:
+        raise lib.Unsupported('c16c: NamedTuple built under several binders / a guard')
+    j, guard = st.bound[0]
+    n = _binder_range(guard)
+    if n is None or not z3.is_int(j):
+        raise lib.Unsupported('c16c: NamedTuple built under a binder that is not 0 <= j < n')
+    names = _nt_fields(ex, ci)
+    vals_ = dict(zip(names, args))
+    vals_.update(kwargs)
+    if set(vals_) != set(names):
+        raise lib.Unsupported('c16c: NamedTuple with defaults')
+    key = ex.repo.class_key(ci)
+    # references of the block: ntref(j), an injective (inverse ntidx) uninterpreted function -- no arithmetic on
+    # references, so that E-matching alone chains  list[j] -> ntref(j) -> field[ntref(j)] -> value(j)
+    ntref = z3.Function(fresh_name('ntref'), I, I)
+    ntidx = z3.Function(fresh_name('ntidx'), I, I)
+    old_alloc = st.alloc
+    new_alloc = z3.Int(fresh_name('ntalloc'))
+    jj = z3.Int(fresh_name('j'))
+    rng = z3.And(jj >= 0, jj < n)
+    st.pc.append(new_alloc >= old_alloc)
+    st.pc.append(z3.ForAll([jj], z3.Implies(rng, z3.And(ntref(jj) >= old_alloc, ntref(jj) < new_alloc, ntidx(ntref(jj)) == jj,
+                                                       ex.cls_of(ntref(jj)) == ex.class_id(key))),
+                           patterns=[ntref(jj)]))
+    r = z3.Int(fresh_name('r'))
+    for nme in names:
+        cur = st.field(nme)
+        new = z3.Const(fresh_name(f'NT!{nme}'), cur.sort())
+        val = z3.substitute(ex.box(st, vals_[nme]), (j, jj))
+        st.pc.append(z3.ForAll([jj], z3.Implies(rng, z3.Select(new, ntref(jj)) == val),
+                               patterns=[ntref(jj)] + _alt_triggers(val, jj)))
+        st.pc.append(z3.ForAll([r], z3.Implies(r < old_alloc, z3.Select(new, r) == z3.Select(cur, r)),
+                               patterns=[z3.Select(new, r)]))
+        st.heap[nme] = new
+    st.alloc = new_alloc
+    ex.ctx.note(f'ENGINE (c16c) {ci.name}(...) inside a comprehension of symbolic length: one fresh reference per position '
+                '(injective), fields axiomatised pointwise, older objects unchanged')
+    return V(Val.ref(ntref(j)), VV.TRef(key))
+
+
+_orig_unpack = None
+
+
+def _unpack(self, st, v, n, node):
+    if _mine(self) and v.kind == 'ref' and v.items is None and v.ty.cls:
+        ci = self.repo.find_class(v.ty.cls)
+        if _is_namedtuple(ci):
+            names = _nt_fields(self, ci)
+            if len(names) == n:
+                out = []
+                for nme in names:
+                    fv = V(st.read(as_ref(v), nme), self.field_ty(v.ty.cls, nme))
+                    st.assume_type(fv)
+                    out.append(fv)
+                return out
+    return _orig_unpack(self, st, v, n, node)
+
+
+
+
+# ---- list comprehensions of symbolic length: contents as an axiomatised constant instead of a z3 lambda ------------
+_prev_comprehension = None
+
+
+def _comprehension(ex, st, node, kind):
+    out = _prev_comprehension(ex, st, node, kind)
+    if _mine(ex) and kind == 'list' and out.kind == 'list' and not st.spec and not st.bound:
+        r = as_ref(out)
+        el = z3.simplify(st.read(r, '$elems'))
+        if z3.is_quantifier(el) and el.is_lambda():
+            jj = z3.Int(fresh_name('j'))
+            arr = z3.Const(fresh_name('comp'), z3.ArraySort(I, Val))
+            body = z3.simplify(z3.Select(el, jj))
+            st.pc.append(z3.ForAll([jj], z3.Select(arr, jj) == body, patterns=[z3.Select(arr, jj)] + _alt_triggers(body, jj)))
+            cur = st.heap['$elems']
+            if z3.is_app(cur) and cur.decl().kind() == z3.Z3_OP_STORE and cur.arg(1).eq(r):
+                st.heap['$elems'] = z3.Store(cur.arg(0), r, arr)       # drop the lambda altogether
+            else:
+                st.write(r, '$elems', arr)
+    return out
+
+
+
+
+# ---- super().__init__(...) of a constructor under contract: inlined ------------------------------------------------
+# ENGINE (core): `super().__init__(name)` applies the sidecar contract registered for the base constructor.  The C16
+# contract of MultipleExpression.__init__ (round 1) only says `self.name == name`; that Expression.__init__ gives the
+# object a FRESH EMPTY `children` list is not in it, so in Catalog.__init__ the list `self.children` would be an
+# arbitrary pre-existing list that may alias the inputs.  For the qualified names listed in INLINE_SUPER_INIT the
+# base constructor body is executed in place instead (what the engine does for any callee without a contract); the
+# contract of the base constructor stays verified on its own.
+INLINE_SUPER_INIT: set = set()
+_orig_call_pyobj = None
+
+
+class _WithoutContract:
+    """The contract registry minus the contract of one qualified name (everything else delegated)."""
+
+    def __init__(self, real, qualname):
+        self._real, self._q = real, qualname
+
+    def get(self, qualname, self_class=None):
+        return None if qualname == self._q else self._real.get(qualname, self_class)
+
+    def __getattr__(self, name):
+        return getattr(self._real, name)
+
+
+def _call_pyobj(ex, st, fv, args, kwargs, node):
+    p = fv.py
+    if _mine(ex) and p[0] == 'boundfi' and p[2].qualname in INLINE_SUPER_INIT:
+        real = ex.ctx.registry
+        ex.ctx.registry = _WithoutContract(real, p[2].qualname)
+        try:
+            ex.ctx.note(f'ENGINE (c16c) super().__init__: body of {p[2].qualname} executed in place (its contract does not '
+                        'describe the fields set by Expression.__init__)')
+            return ex.call_repo_function(st, p[2], [p[1]] + args, kwargs, node)
+        finally:
+            ex.ctx.registry = real
+    return _orig_call_pyobj(ex, st, fv, args, kwargs, node)
+
+
+_INSTALLED = False
+
+
+def install():
+    """ALL patches are installed here, on demand: contracts/c16c_*.py call it once pyvc is fully imported (this file is
+    auto-loaded by pyvc.lib for every property; importing it alone changes nothing).  Every wrapper additionally
+    declines unless a function of property C16 is being verified."""
+    global _INSTALLED, _orig_binop, _orig_set_of, _orig_py_eq, _orig_type, _orig_e_tuple, _orig_unpack
+    global _prev_comprehension, _orig_call_pyobj
+    if _INSTALLED:
+        return
+    _INSTALLED = True
+    _orig_binop = SE.Executor.binop
+    SE.Executor.binop = _binop
+    _orig_set_of = lib.set_of          # `_b_set` reaches it through the module global
+    lib.set_of = _set_of
+    _orig_py_eq = SE.Executor.py_eq
+    SE.Executor.py_eq = _py_eq
+    _orig_type = lib.BUILTINS['type']
+    lib.BUILTINS['type'] = _b_type
+    _orig_e_tuple = SE.Executor._e_Tuple
+    SE.Executor._e_Tuple = _e_Tuple
+    lib.HOOKS['construct_special'].append(_construct_namedtuple_block)
+    _orig_unpack = SE.Executor.unpack
+    SE.Executor.unpack = _unpack
+    _prev_comprehension = lib.comprehension
+    lib.comprehension = _comprehension
+    _orig_call_pyobj = lib.call_pyobj
+    lib.call_pyobj = _call_pyobj
